@@ -222,6 +222,10 @@ pub fn derive_xpub(
     root_chain_code: [u8; 32],
     chain_path: DerivationPath,
 ) -> Result<XPubKey, BIP32Error> {
+    if *root_public_key == ProjectivePoint::IDENTITY {
+        return Err(BIP32Error::PubkeyPointAtInfinity);
+    }
+
     let mut pubkey = *root_public_key;
     let mut chain_code = root_chain_code;
     let mut parent_fingerprint: [u8; 4] = [0u8; 4];
